@@ -37,7 +37,8 @@ Explain(e, q, r, d) ==
   [line |-> l, err |-> e.err,
    exp |-> [rows |-> FlatRows(r.rows), totals |-> r.totals, hits |-> r.hits, ifaces |-> r.ifaces],
    pruned |-> FlatRows(PipelineRows(d, q, 32, "asbuilt")),
-   neqfixed |-> FlatRows(PipelineRows(d, q, 32, "neqfixed")) = FlatRows(r.rows)]
+   neqfixed |-> FlatRows(PipelineRows(d, q, 32, "neqfixed")) = FlatRows(r.rows),
+   hinge |-> Rows(d, OtherReading(q)) = PipelineRows(d, q, 32, "asbuilt")]
 
 Judge(e, q, r, d) == IF ResOK(e, r) THEN bad' = bad
                      ELSE PrintT(<<"MISMATCH", ToJson(Explain(e, q, r, d))>>) /\ bad' = bad + 1
